@@ -833,6 +833,15 @@ Fixpoint attr_nested (v : value) : bool :=
   | _ => true
   end.
 
+(* every attribute name of every AutoSerialize object in the graph (any depth, also in containers) *)
+Fixpoint all_names (v : value) : list string :=
+  match v with
+  | VObj _ _ l => flat_map (fun kv => fst kv :: all_names (snd kv)) l
+  | VList l | VTuple l | VSet l => flat_map all_names l
+  | VDict l => flat_map (fun kv => all_names (snd kv)) l
+  | _ => []
+  end.
+
 (* ------------------------------------------------------------------ well-formed graphs *)
 Definition reserved : list string :=
   ["_autoserialize"; "_container_type"; "_sequence_encoding"; "_torch_iterable_module_type";
@@ -882,6 +891,11 @@ Definition arr_ok (a : arr) : bool :=
   | _ => false
   end.
 
+(* the attributes written next to a blob's marker (_tensor_shape, ..., class_name): distinct names,
+   none of them one of the serializer's markers *)
+Definition meta_ok (meta : smap jval) : bool :=
+  nodupb (keys meta) && forallb (fun k => negb (mem k reserved)) (keys meta).
+
 (* in_cont: the value sits inside a list/tuple/set/dict, where _deserialize_container has no
    branch for optimizers, schedulers, rngs and does not unpickle dill payloads *)
 Fixpoint wf_value (in_cont : bool) (v : value) : bool :=
@@ -889,7 +903,7 @@ Fixpoint wf_value (in_cont : bool) (v : value) : bool :=
   | VNone | VBool _ | VInt _ | VFloat _ | VStr _ | VPath _ => true
   | VNpScalar dt n => mem dt np_dtypes && num_matches dt n
   | VArr a => arr_ok a
-  | VBlob k _ _ _ => match k with BTensor | BModule => true | _ => negb in_cont end
+  | VBlob k _ meta _ => meta_ok meta && match k with BTensor | BModule => true | _ => negb in_cont end
   | VLogger c _ _ => String.eqb c "Logger" || String.eqb c "RootLogger"
   | VRng bg _ => negb in_cont && mem bg known_bitgens
   | VList l | VTuple l | VSet l => forallb (wf_value true) l && nums_ok l
